@@ -5,7 +5,7 @@ stream with symbolic content, cut at solver-chosen positions, with a duplicated 
 initial sequence number over the whole 32-bit space.  Observation point: the records handed to handle_tls_record."""
 
 VALIDATE = True
-SITES = ["no-exception", "records-complete", "records-equal-sent", "direction-flag"]
+SITES = ["no-exception", "records-complete", "records-equal-sent", "direction-flag", "client-stream-equals-sent", "server-stream-equals-sent"]
 MODELS = ["packets: duck-typed objects with the attributes of tlexport.packet.Packet (Packet itself is covered by C07/C11)",
           "Session.handle_tls_record replaced on the instance by a recorder (the record layer is the observation point)"]
 ASSUMPTIONS = ["segments are non-empty (main.run drops empty TCP payloads before Session sees them)",
@@ -29,6 +29,16 @@ def configs(tier, seed):
                         out.append({"name": "%s-%s-%s-r%d-c%d" % (main_dir, transform, isn, nrec, ncuts), "harness": "segmentation",
                                     "main": main_dir, "transform": transform, "isn": isn, "mode": "real", "nrec": nrec,
                                     "ncuts": ncuts, **T})
+    # the whole program (main.run -> Session -> builder) on connections whose every TCP segment carries s bytes: single bytes, records
+    # spanning many segments, a record's last byte alone in a segment
+    from tlv.harness import c01
+    base = {c["name"]: c for c in c01.configs(tier, seed) if c["harness"] == "pipeline"}
+    picks = [n for n in base if n.endswith("-segmented")]
+    for n in picks[:3 if tier == "quick" else len(picks)]:
+        for s in ((1, 2, 5) if tier == "quick" else (1, 2, 3, 5, 7)):
+            cc = dict(base[n])
+            cc.update(harness="program", name="program-%s-%dbyte-segments" % (n.replace("-segmented", ""), s), seg_size=s, records=2, min_len=1, max_len=2, mode="stub")
+            out.append(cc)
     return out
 
 
@@ -40,6 +50,7 @@ def bounds(tier):
                           "with its successor in one packet, same sequence number as the first) at any position after the first of the two" % T["dups"],
             "reordering": "one segment displaced by <= %d places within its direction" % T["disp"],
             "ISN": "whole 32-bit space; 'near-wrap' configurations constrain it so that the stream crosses 2^32",
+            "program": "3 connections (thorough: one per cipher family and version) through main.run with every segment of 1, 2 or 5 bytes (thorough: 1, 2, 3, 5, 7)",
             "other direction": "one record in one segment at a solver-chosen position of the interleaving",
             "outside": "retransmissions that start inside an earlier segment or arrive before the data they repeat, keep-alives, more than one transformation at once"}
 
@@ -167,6 +178,10 @@ def _ooo_event(s, got, plan, main_server):
 
 
 def run_config(cfg):
+    if cfg["harness"] == "program":
+        from tlv.harness import c01
+        r = c01.run_config(cfg)
+        return r
     from tlv.sx import shims
     from tlv.sx.core import ctx, sym_int, sym_choice, sym_and
     from tlv.sx.symbytes import sym_bytes, mixed_bytes, as_symbytes
@@ -236,10 +251,18 @@ def _concrete(cfg, inp):
 
 
 def replay(cfg, viol):
+    if cfg["harness"] == "program":
+        from tlv.harness import c01
+        r = c01.concrete(cfg, viol["inputs"])
+        return {"reproduced": not r["ok"], **r}
     r = _concrete(cfg, viol["inputs"])
     return {"reproduced": not r["ok"], **r}
 
 
 def validate(cfg, sample):
+    if cfg["harness"] == "program":
+        from tlv.harness import c01
+        r = c01.concrete(cfg, sample["inputs"])
+        return {"agree": r["ok"], **r}
     r = _concrete(cfg, sample["inputs"])
     return {"agree": r["ok"], **r}
